@@ -23,7 +23,8 @@ type fdent struct {
 	n     *node
 	off   int64
 	app   bool
-	path  string // path at open time, relative to the root ("" = root)
+	sync  bool   // opened with O_SYNC / O_DSYNC: every write is durable when it returns
+	path  string // current path, relative to the root ("" = root); follows renames
 	isAck bool
 }
 
@@ -36,6 +37,7 @@ type Applied struct {
 	Changed bool   // the tree changed
 	Marker  string // text written to the ack file
 	Fd      int
+	Synced  bool // a write through a descriptor opened with O_SYNC / O_DSYNC
 }
 
 // FS is the model of the directory tree below Root.
@@ -223,7 +225,7 @@ func (fs *FS) Apply(ev Event) (Applied, error) {
 			a.Changed = true
 			a.Op = "truncate"
 		}
-		fs.fds[fd] = &fdent{n: n, app: hasFlag(flags, "O_APPEND"), path: rel}
+		fs.fds[fd] = &fdent{n: n, app: hasFlag(flags, "O_APPEND"), sync: hasFlag(flags, "O_SYNC") || hasFlag(flags, "O_DSYNC"), path: rel}
 		return a, nil
 	case "close":
 		fd, _ := strconv.Atoi(arg(0))
@@ -281,7 +283,7 @@ func (fs *FS) Apply(ev Event) (Applied, error) {
 		if !positioned {
 			e.off = off + int64(len(data))
 		}
-		a.Op, a.Path, a.N, a.Changed, a.Fd = "write", e.path, len(data), len(data) > 0, fd
+		a.Op, a.Path, a.N, a.Changed, a.Fd, a.Synced = "write", e.path, len(data), len(data) > 0, fd, e.sync
 		return a, nil
 	case "lseek":
 		fd, _ := strconv.Atoi(arg(0))
